@@ -252,6 +252,9 @@ func (t *tr) loadedPtrFacts(R, term string, ty types.Type, src ssa.Value) {
 func (t *tr) block(b *ssa.BasicBlock, heaps map[string]string) {
 	R := t.reach[b]
 	for _, ins := range b.Instrs {
+		if t.stopped {
+			return
+		}
 		switch x := ins.(type) {
 		case *ssa.DebugRef:
 		case *ssa.Phi:
@@ -457,7 +460,13 @@ func (t *tr) block(b *ssa.BasicBlock, heaps map[string]string) {
 			t.ret(x, b, R, heaps)
 		case *ssa.Panic:
 			t.oblige("safe", t.nameAt("panic", x.Pos(), pickCall), R, "false", x.Pos())
-		case *ssa.Go, *ssa.Send, *ssa.Select:
+		case *ssa.Go:
+			// partial verification: everything from the first go statement on is outside the subset; the obligations
+			// generated so far (the prefix of the function) are kept, nothing after this point is claimed
+			t.stopped = true
+			t.abstractf("function verified only up to its first go statement (%s)", t.posStr(ins.Pos()))
+			return
+		case *ssa.Send, *ssa.Select:
 			t.fatalf("unsupported: %T in %s (goroutines/channels are outside the subset)", ins, t.fnKey)
 		default:
 			if v, ok := ins.(ssa.Value); ok {
@@ -1145,6 +1154,37 @@ func (t *tr) ret(x *ssa.Return, b *ssa.BasicBlock, R string, heaps map[string]st
 			continue
 		}
 		t.oblige("ensures", fmt.Sprintf("ensures/%s@return[%d]", e.Label, idx), R, term, x.Pos())
+	}
+	// behavioural subtyping: the interface method's postcondition, read through the abstraction of its ghosts
+	for _, key := range t.own.Refines {
+		ifs := t.eng.specs.Funcs["invoke:"+key]
+		if ifs == nil {
+			t.fatalf("refines %s: no contract for that interface method", key)
+			continue
+		}
+		renv := &senv{t: t, vars: map[string]*sv{}, lets: map[string]ast.Expr{}, pkg: t.pkg, abstract: true}
+		if len(ifs.Params) != len(t.fn.Params) || len(ifs.Results) != len(res) {
+			t.fatalf("refines %s: arity mismatch", key)
+			continue
+		}
+		for i, p := range t.fn.Params {
+			renv.vars[ifs.Params[i]] = t.svOfTerms(t.val[p], p.Type())
+		}
+		for i := range res {
+			renv.vars[ifs.Results[i]] = t.svOfTerms(res[i], t.fn.Signature.Results().At(i).Type())
+		}
+		for _, l := range ifs.Lets {
+			renv.lets[l.Name] = l.Expr
+		}
+		renv.letEnv = renv
+		for _, e := range ifs.Ensures {
+			term, err := t.evalBool(e.Expr, renv, heaps, t.oldHeaps)
+			if err != nil {
+				t.fatalf("refines %s ensures %s: %v", key, e.Label, err)
+				continue
+			}
+			t.oblige("refines", fmt.Sprintf("refines/%s.%s@return[%d]", shortName(key), e.Label, idx), R, term, x.Pos())
+		}
 	}
 	// frame: everything outside the modifies clause is unchanged
 	if !t.own.Havoc {
